@@ -10,10 +10,12 @@ The oracle evaluates the property's defining relations on what FDApy returned.
 """
 from __future__ import annotations
 
+import os
 from fractions import Fraction
 
 import numpy as np
 
+import common
 from common import F, Rng, close_all, digest, err_class, fl, pmat, pvec, rs
 from fpca_util import (trapz_weights, pow2, special_grids, EigCapture, Fm, Fv, Smat, Svec, curves, dense, grid, quiet, raw_from_call, sel_to_model,
                        sel_to_py)
@@ -33,9 +35,44 @@ PARTIAL = [
     "square roots: theorems with exact roots as hypotheses (any field, ℝ included); the driver uses rational brackets within 1e-24 (C02.sqrt_bracket)",
     "the noise variance subtracted on the Gram route is taken from the fitted estimator (its estimator is C09's subject)",
 ]
+THEOREMS_SRC = "C02.fit_flags_src, symMat_src_eq_model, backTransform_src_eq_model, gramEigfun_src_eq_model, gramEigval_src_eq_model, mercer_src_eq_model"
+TRUSTED_EXTRA = ["translator harness/c02_translate.py (ast, syntax only: operators, powers, operand order, transposes, subscripts of "
+                 "_fit_covariance, _fit_inner_product, _compute_covariance, UFPCA.transform/inverse_transform, rescale, NumInt, InnPro)"]
 TIED = "tied_eigenvalues"
 NONPOS = "gram_eigenvalue_nonpositive"
 RTOL = 1e-9
+
+
+# --------------------------------------------------------------------------
+# translator: the UFPCA formulas as written -> lean/FDAModel/Generated/UfpcaFormulas.lean
+# --------------------------------------------------------------------------
+
+GEN_FORMULAS = os.path.join(common.LEAN_DIR, "FDAModel", "Generated", "UfpcaFormulas.lean")
+TRANSLATOR_NOTE = "translator: not run"
+
+
+def translate():
+    """Regenerate Generated/UfpcaFormulas.lean from what the source says now (`harness/c02_translate.py`, syntax only).
+    A source whose shape is not recognised (a refactor) is NOT an alarm: the reference translation stored beside the
+    translator is used, a note is printed and recorded in the evidence, and the tie rests on the correspondence only.
+    Only a successful translation can break THEOREMS_SRC."""
+    global TRANSLATOR_NOTE
+    import c02_translate
+
+    try:
+        src = c02_translate.lean_source(common.REPO)
+        TRANSLATOR_NOTE = "translator: UFPCA formulas regenerated from the source and re-proved equal to the model (" + THEOREMS_SRC + ")"
+    except (ValueError, SyntaxError, IndexError, AttributeError, KeyError, TypeError) as e:
+        TRANSLATOR_NOTE = f"translator: shape of the UFPCA source not recognised, tie rests on the correspondence only ({str(e)[:140]})"
+        print("note:", TRANSLATOR_NOTE)
+        src = open(os.path.join(os.path.dirname(os.path.abspath(__file__)), "c02_ufpcaformulas_reference.lean")).read()
+    except OSError as e:
+        raise common.InfraError(f"translator: cannot read the UFPCA sources under {common.REPO}: {e}")
+    old = open(GEN_FORMULAS).read() if os.path.exists(GEN_FORMULAS) else None
+    if old != src:
+        os.makedirs(os.path.dirname(GEN_FORMULAS), exist_ok=True)
+        with open(GEN_FORMULAS, "w") as fh:
+            fh.write(src)
 
 
 # --------------------------------------------------------------------------
@@ -585,5 +622,5 @@ def extra_coverage(cases, impls, models):
         sc = solver_contract(i) if isinstance(i, dict) and "solver_in" in i else None
         if sc:
             res, orth = max(res, sc[0]), max(orth, sc[1])
-    return dict(solver_contract=dict(max_relative_eigen_residual=res, max_orthonormality_defect=orth,
+    return dict(translator=TRANSLATOR_NOTE, solver_contract=dict(max_relative_eigen_residual=res, max_orthonormality_defect=orth,
                                      note="orthonormality defects of order 1 occur inside repeated eigenvalues (np.linalg.eig on a symmetric matrix); see finding C02-tied-eigenvalues"))
